@@ -422,6 +422,10 @@ def run(ctx, progs):
     r01d(ctx, P)
     r01e(ctx, P)
     r01f(ctx, P)
+    # R01.g = R02.e: a shortened log (rollback, batch rewind, torn-tail cut) is synced before success is returned — otherwise a
+    # power loss resurrects discarded records and the next commit publishes them
+    from sa.rules.C02 import r02e
+    r02e(ctx, P, rid="R01.g")
     if ctx.tier == "thorough":
         ctx.config = "features"
         Pf = progs.get("features")
